@@ -382,6 +382,20 @@ def replay_simple(cname, s1none, s2none, instnone):
             after = {s: getattr(c, s) for s in slots}
             if after != before:
                 fails.append(f"history construct(early); with outer: with early: pass -> after exit {after} != before entry {before}")
+        # history 3: the context takes effect on entry, per slot (dtype contexts: only the slots that are given)
+        if kind == "dtype":
+            for kw, sl in (("float_value", "_global_float_value"), ("double_value", "_global_double_value"), ("half_value", "_global_half_value")):
+                before = {s_: getattr(c, s_) for s_ in slots}
+                with c(**{kw: 0.625}):
+                    now = {s_: getattr(c, s_) for s_ in slots}
+                    want = dict(before)
+                    want[sl] = 0.625
+                    if now != want:
+                        fails.append(f"history with {cname}({kw}=0.625): inside the block {now}, expected {want}")
+        else:
+            with mk(inner_v):
+                if getattr(c, slots[0]) != inner_v:
+                    fails.append(f"history with {cname}({inner_v!r}): inside the block the value is {getattr(c, slots[0])!r}")
         # history 2: slot unset (None) before entry
         for s in slots:
             setattr(c, s, None)
